@@ -294,6 +294,26 @@ PROPS = {
                       "Tied by comparing the model's decision with the real collector passes on every history.",
         "level_note": "Trusted: Coq kernel, extraction, driver, harness. Re-binding of a fixed record to the new pod uid is judged on histories (clauses 1101/1104) and by following the pod controller's decision function.",
     },
+    "C13": {
+        "pkg": "./dp/", "test": "TestVerif_DP", "n_quick": 300, "n_thorough": 4000, "env": {"VERIF_PROP": "C13"},
+        "rule": "2/3 generator cases: the container-side configuration generators of all four datapaths (policy-route veth, ipvlan, exclusive ENI, vlan) and the host-side generators of the policy-route datapath on "
+                "IPv4 / IPv6 / dual configurations with default route, multi-network, vlan stripping, 0..2 extra routes (link-scoped, via a gateway, IPv6), random addresses and link indices; the policy-route "
+                "generators are compared field by field with the model, all are judged by clause 1303 / 1306 (one default route per enabled family, nothing for a disabled one). 1/3 sequences of 4..13 operations "
+                "applied for real in private network namespaces (root; veth pairs stand in for ENIs): setup of a pod slot with an address on an interface (v4 / v6 / dual), teardown with the real, a zero or a stale "
+                "interface index, loss of a sandbox without DEL, loss and return of an interface (new index). After every operation the kernel's ip rules, host routes, per-interface tables, veths and FIB lookups "
+                "(route get to the pod address; from the pod address arriving on its veth) are compared with the model's state and judged by clauses 1301 1302 1303 1304 1305 1307. "
+                "non-trivial = a configuration was generated or an operation ran; distinct = distinct input vectors",
+        "trusted": ["the Linux kernel of this sandbox (netns, veth, policy routing, route get) as the reference for what the programmed state does", "vishvananda/netlink dumps and RouteGetWithOptions",
+                    "containernetworking testutils.NewNS (private namespaces, one locked OS thread per sequence)", "the harness' integer encoding of addresses, devices and tables (DpRun.v decoders)"],
+        "modelled": ["ipvlan, exclusive-ENI and vlan datapaths: only their container-side generators are exercised (clauses on the generated configuration); this kernel has no ipvlan / vlan / dummy link types, so their setup cannot run",
+                     "traffic control (bandwidth, network priority, vlan tag filters) and sysctls are not observed", "a veth pair plays the ENI: its peer is up, nothing answers on it (the FIB lookup does not need a neighbour)"],
+        "assumptions": ["addresses of pods that are set up at the same time are distinct (the IPAM properties)"],
+        "level_text": "Theorems (policy-route datapath): from every state of the host namespace, stale rules of an earlier holder of the address included, a setup makes the kernel's lookup deliver to the pod's veth and "
+                      "send pod-sourced traffic out of the owning interface via its gateway, per family; a teardown removes every rule of the address, the veth and the routes through it and leaves every other "
+                      "rule, veth, route and table as it was; the container gets exactly one default route per enabled family when asked, whatever the extra routes. Tied by comparing the model with the real "
+                      "generators and with the kernel's state after every real Setup / Teardown.",
+        "level_note": "Trusted: Coq kernel, extraction, driver, harness, the sandbox kernel. Partial: three of the four datapaths are judged on their generators' output only.",
+    },
     "C04": {
         "pkg": "./svc/", "test": "TestVerif_Svc", "n_quick": 400, "n_thorough": 20000, "env": {"VERIF_PROP": "C04"},
         "rule": "histories of 10..40 stimuli on the real networkService (AllocIP / ReleaseIP / GetIPInfo called directly) over the real pool: ADD / DEL / GET for 1..4 pods with current, older and newer "
@@ -1067,6 +1087,42 @@ def dist_C10(cases):
 
 def dist_C11(cases):
     return _dist_pe(cases)
+
+
+def sig_C13(ins, outs, extra=""):
+    code, idx = _why(extra)
+    k = int(ins[0]) if ins else 0
+    if k == 1:
+        return "C13:generator:dp%s:clause%d" % (ins[1] if len(ins) > 1 else "?", code)
+    return "C13:sequence:clause%d" % code
+
+
+def nt_C13(ins, outs):
+    return len(outs) > 4
+
+
+def dist_C13(cases):
+    names = {0: "policy_route", 1: "ipvlan", 2: "exclusive_eni", 3: "vlan"}
+    ops = {1: "setup", 2: "teardown", 3: "sandbox_lost_without_del", 4: "interface_lost", 5: "interface_back"}
+    d = {"cases": len(cases), "generator_cases": {v: 0 for v in names.values()}, "sequences": 0, "operations": {v: 0 for v in ops.values()},
+         "families": {"v4": 0, "v6": 0, "dual": 0}, "teardown_index": {"real": 0, "zero": 0, "stale": 0}, "operations_with_error": 0}
+    for _, ins, outs in cases:
+        ii = [int(x) for x in ins]
+        if ii and ii[0] == 1:
+            d["generator_cases"][names.get(ii[1], "vlan")] += 1
+            d["families"]["dual" if ii[2] and ii[3] else ("v4" if ii[2] else "v6")] += 1
+        elif ii and ii[0] == 2:
+            d["sequences"] += 1
+            n = ii[1]
+            for j in range(n):
+                op = ii[2 + 6 * j:8 + 6 * j]
+                if len(op) == 6:
+                    d["operations"][ops.get(op[0], "setup")] += 1
+                    if op[0] == 2:
+                        d["teardown_index"][("real", "zero", "stale")[op[5] if 0 <= op[5] <= 2 else 0]] += 1
+            oo = [int(x) for x in outs]
+            d["operations_with_error"] += sum(1 for i in range(len(oo) - 6) if oo[i] == 99 and oo[i + 6] == 1 and oo[i + 1] in (1, 2, 3, 4, 5))
+    return d
 
 
 def nt_C04(ins, outs):
